@@ -2,6 +2,7 @@
 
 from __future__ import annotations
 
+import re
 from typing import TYPE_CHECKING
 from typing import Callable
 from typing import Dict
@@ -48,6 +49,9 @@ if TYPE_CHECKING:
     from .tokens import TokenStream
 
 # ruff: noqa: D102
+
+# The integer part of a number literal: "0", "-0" or digits without leading zeros.
+RE_INT_PART = re.compile(r"-?(?:0|[1-9][0-9]*)(?![0-9])")
 
 
 class Parser:
@@ -360,7 +364,8 @@ class Parser:
 
     def parse_integer_literal(self, stream: TokenStream) -> Expression:
         value = stream.current.value
-        if value.startswith("0") and len(value) > 1:
+        if not RE_INT_PART.match(value):
+            # Leading zeros are not allowed in the integer part.
             raise JSONPathSyntaxError("invalid integer literal", token=stream.current)
 
         # Convert to float first to handle scientific notation.
@@ -373,7 +378,8 @@ class Parser:
 
     def parse_float_literal(self, stream: TokenStream) -> Expression:
         value = stream.current.value
-        if value.startswith("0") and len(value.split(".")[0]) > 1:
+        if not RE_INT_PART.match(value):
+            # Leading zeros are not allowed in the integer part.
             raise JSONPathSyntaxError("invalid float literal", token=stream.current)
 
         try:
